@@ -494,6 +494,79 @@ func (s *Scn) do(op string) Outcome {
 			return Outcome{} // a checkpoint that gave up on a busy database is not an error of the scenario
 		}
 		return Outcome{}
+	case "SCW":
+		// A sync with an application commit landing in the middle of it: the sync is paused (hook) where it is about
+		// to stage its level-0 file, i.e. after it opened and measured the WAL; the application commits one row; the
+		// sync is released and finishes with what it had read. One fixed interleaving, joined before returning.
+		if !s.LSOpen || !s.AppUp || s.InTx || s.Remote != nil {
+			return ill
+		}
+		s.tickIf()
+		{
+			reached, release := s.DB.VerifPauseNextLTXStaging()
+			syncDone := make(chan error, 1)
+			go func() { syncDone <- s.DB.Sync(ctx) }()
+			select {
+			case <-reached:
+			case err := <-syncDone:
+				// nothing to copy: no file was staged, the sync is over; the commit simply follows it
+				s.DB.VerifResetLTXStaging()
+				s.rowSeq++
+				werr := s.wexec("INSERT INTO t (v) VALUES (?)", pay(s.rowSeq, 60))
+				s.recordLedger()
+				if err == nil {
+					err = werr
+				}
+				return Outcome{Err: err}
+			}
+			s.rowSeq++
+			werr := s.wexec("INSERT INTO t (v) VALUES (?)", pay(s.rowSeq, 60))
+			s.recordLedger()
+			release()
+			err := <-syncDone
+			s.recordLedger()
+			if err == nil {
+				err = werr
+			}
+			return Outcome{Err: err}
+		}
+	case "LCF":
+		// litestream checkpoint (mode = arg) with an application commit landing while its FIRST level-0 file (the
+		// copy that precedes the checkpoint) is being staged, and a one-shot ENOSPC on the open of the NEXT staging
+		// file (the copy / boundary snapshot that follows the checkpoint): the checkpoint has then changed the WAL
+		// but could not record it. One fixed interleaving with one fault, joined before returning; the failing
+		// checkpoint is an unacknowledged operation.
+		if !s.LSOpen || !s.AppUp || s.InTx || s.Remote != nil || (s.lfArmed != nil && s.lfArmed()) {
+			return ill
+		}
+		s.tickIf()
+		{
+			reached, release := s.DB.VerifPauseNextLTXStaging()
+			cpDone := make(chan error, 1)
+			go func() { cpDone <- s.DB.Checkpoint(ctx, arg) }()
+			select {
+			case <-reached:
+			case err := <-cpDone:
+				// nothing was copied before the checkpoint: no pause point, an ordinary checkpoint
+				s.DB.VerifResetLTXStaging()
+				s.recordLedger()
+				return Outcome{Err: err}
+			}
+			s.rowSeq++
+			werr := s.wexec("INSERT INTO t (v) VALUES (?)", pay(s.rowSeq, 60))
+			s.recordLedger()
+			armed := s.DB.VerifFailNextLTXStaging("open", 0, syscall.ENOSPC)
+			release()
+			err := <-cpDone
+			if armed() {
+				s.DB.VerifResetLTXStaging() // the checkpoint staged no second file
+			}
+			s.recordLedger()
+			if err == nil {
+				err = werr
+			}
+			return Outcome{Err: err}
+		}
 	case "QSNAP":
 		// A snapshot REQUESTED while a sync is in flight: the sync is paused (hook) at the point where it has
 		// taken the executor and is about to stage its level-0 file; DB.Snapshot is started and queues behind
@@ -734,6 +807,9 @@ func (s *Scn) do(op string) Outcome {
 		if s.LSOpen {
 			return ill
 		}
+		if s.Cfg.MetaInDBDir {
+			return Outcome{Err: os.RemoveAll(s.DB.LTXDir())} // the meta path is the database's own directory
+		}
 		err := os.RemoveAll(s.DB.MetaPath())
 		return Outcome{Err: err}
 	case "SAVEDB":
@@ -756,7 +832,11 @@ func (s *Scn) do(op string) Outcome {
 		for _, suf := range []string{"", "-wal", "-shm"} {
 			os.Remove(s.DBPath + suf)
 		}
-		os.RemoveAll(s.DB.MetaPath())
+		if s.Cfg.MetaInDBDir {
+			os.RemoveAll(s.DB.LTXDir())
+		} else {
+			os.RemoveAll(s.DB.MetaPath())
+		}
 		// the new database replicates to a NEW, empty replica location (the old one holds another database); the
 		// litestream DB object stays the same, its Replica is replaced as a changed configuration would do
 		s.ReplicaDir += "-next"
